@@ -1,11 +1,155 @@
 package main
 
+// Timers, tickers and the symbolic clock.
+//
+// Modes (Bounds.TimeMode):
+//   "" / "frozen": timers never fire (the property is about behaviour while
+//                  every deadline is still in the future); time.Now() is monotone symbolic.
+//   "free":        at any scheduling point the environment may fire an armed
+//                  timer; firing advances the clock to at least its deadline.
+
+import (
+	"go/types"
+
+	"golang.org/x/tools/go/ssa"
+)
+
 type timerObj struct {
+	id       int
 	ch       *ChanObj
 	deadline *Term
 	armed    bool
+	periodic bool
 	fn       FuncV
+	hasFn    bool
+	obj      *Object
+	fired    int
 }
 
-// fireTimer: placeholder until the timer model is built.
-func (st *State) fireTimer(onlyIfIdle bool) bool { return false }
+func (st *State) newTimerObject(fn *ssa.Function, d *Term, periodic bool) (Ptr, *timerObj) {
+	pt := fn.Signature.Results().At(0).Type().(*types.Pointer)
+	o := st.newObject(st.zero(pt.Elem()), pt.Elem(), "timer")
+	ch := st.newChan(1, nil)
+	t := &timerObj{id: len(st.timers), ch: ch, deadline: st.tt.Bin(OpAdd, st.clockNow(), d), armed: true, periodic: periodic, obj: o}
+	ch.timer = t
+	st.timers = append(st.timers, t)
+	p := Ptr{Obj: o}
+	st.storeNoRace(p.sub(st.fieldIndex(p, "C")), ChanV{C: ch})
+	st.kv["timer:"+p.key()] = t
+	return p, t
+}
+
+func (st *State) timerOf(p Ptr) *timerObj {
+	t, _ := st.kv["timer:"+p.key()].(*timerObj)
+	if t == nil {
+		panic(unsupported("timer not created through time.NewTimer/NewTicker/AfterFunc"))
+	}
+	return t
+}
+
+func init() {
+	reg("time.NewTimer", func(st *State, th *Thread, fn *ssa.Function, a []Value) (Value, stepStatus) {
+		p, _ := st.newTimerObject(fn, a[0].(*Term), false)
+		return p, stNext
+	})
+	reg("time.NewTicker", func(st *State, th *Thread, fn *ssa.Function, a []Value) (Value, stepStatus) {
+		p, _ := st.newTimerObject(fn, a[0].(*Term), true)
+		return p, stNext
+	})
+	reg("time.AfterFunc", func(st *State, th *Thread, fn *ssa.Function, a []Value) (Value, stepStatus) {
+		p, t := st.newTimerObject(fn, a[0].(*Term), false)
+		t.fn, t.hasFn = a[1].(FuncV), true
+		return p, stNext
+	})
+	reg("time.After", func(st *State, th *Thread, fn *ssa.Function, a []Value) (Value, stepStatus) {
+		ch := st.newChan(1, nil)
+		t := &timerObj{id: len(st.timers), ch: ch, deadline: st.tt.Bin(OpAdd, st.clockNow(), a[0].(*Term)), armed: true}
+		ch.timer = t
+		st.timers = append(st.timers, t)
+		return ChanV{C: ch}, stNext
+	})
+	reg("time.Sleep", func(st *State, th *Thread, fn *ssa.Function, a []Value) (Value, stepStatus) {
+		// sleeping = letting the clock pass the wake-up instant
+		tt := st.tt
+		wake := tt.Bin(OpAdd, st.clockNow(), a[0].(*Term))
+		n := st.freshInternal("now", 64)
+		st.assume(tt.Cmp(OpSLe, wake, n))
+		st.assume(tt.Cmp(OpSLe, st.now, n))
+		st.now = n
+		return nil, stNext
+	})
+	stop := func(st *State, th *Thread, fn *ssa.Function, a []Value) (Value, stepStatus) {
+		t := st.timerOf(a[0].(Ptr))
+		was := t.armed
+		t.armed = false
+		if fn.Signature.Results().Len() == 0 {
+			return nil, stNext
+		}
+		return st.tt.Bool(was), stNext
+	}
+	reg("(*time.Timer).Stop", stop)
+	reg("(*time.Ticker).Stop", stop)
+	reset := func(st *State, th *Thread, fn *ssa.Function, a []Value) (Value, stepStatus) {
+		t := st.timerOf(a[0].(Ptr))
+		was := t.armed
+		t.armed = true
+		t.deadline = st.tt.Bin(OpAdd, st.clockNow(), a[1].(*Term))
+		if fn.Signature.Results().Len() == 0 {
+			return nil, stNext
+		}
+		return st.tt.Bool(was), stNext
+	}
+	reg("(*time.Timer).Reset", reset)
+	reg("(*time.Ticker).Reset", reset)
+}
+
+// armedTimers returns the timers that may fire now.
+func (st *State) armedTimers() []*timerObj {
+	if st.eng.cfg.TimeMode != "free" {
+		return nil
+	}
+	var out []*timerObj
+	for _, t := range st.timers {
+		if t.armed && (t.hasFn || len(t.ch.buf) < t.ch.cap) && t.fired < st.eng.cfg.MaxTimerFires {
+			out = append(out, t)
+		}
+	}
+	return out
+}
+
+// fire delivers timer t: the clock moves to an instant >= its deadline.
+func (st *State) fire(t *timerObj) {
+	tt := st.tt
+	n := st.freshInternal("now", 64)
+	st.clockNow()
+	st.assume(tt.Cmp(OpSLe, st.now, n))
+	st.assume(tt.Cmp(OpSLe, t.deadline, n))
+	st.assume(tt.Cmp(OpSLt, n, tt.Const(1<<62, 64)))
+	st.now = n
+	t.fired++
+	if !t.periodic {
+		t.armed = false
+	}
+	if t.hasFn {
+		th := st.newThread(t.fn, nil, "AfterFunc")
+		th.vc = nil
+		return
+	}
+	t.ch.buf = append(t.ch.buf, st.mkTime(n))
+	t.ch.sendVC = append(t.ch.sendVC, nil)
+}
+
+// fireTimer is the idle-time environment step: when nothing else can run, an armed timer fires.
+func (st *State) fireTimer(onlyIfIdle bool) bool {
+	ts := st.armedTimers()
+	if len(ts) == 0 {
+		return false
+	}
+	alts := make([]int64, len(ts))
+	for i := range ts {
+		alts[i] = int64(ts[i].id)
+	}
+	id := st.decide("timer", alts)
+	st.fire(st.timers[id])
+	return true
+}
